@@ -315,6 +315,8 @@ def build_stock_rnn(case, act, ract, cell):
     ckw["implementation"] = kw.get("implementation", 1)
   if lay == "QGRU":
     ckw["reset_after"] = kw.get("reset_after", False)
+  if lay == "QLSTM" and "unit_forget_bias" in kw:
+    ckw["unit_forget_bias"] = kw["unit_forget_bias"]
   if cell:
     return getattr(tf.keras.layers, STOCK_CELL[lay])(**ckw)
   ckw["return_sequences"] = kw.get("return_sequences", False)
@@ -393,6 +395,18 @@ def labels(case):
   for r, v in case["q"].items():
     if v is not None:
       labs.append("q:" + r)
+  # classes that were broken before the fixes for C11-KF1..KF5
+  if lay == "QSeparableConv1D" and pad == "causal":
+    labs.append("sep1d_causal")
+  if lay == "QGRU" and case["q"].get("recurrent") is None:
+    labs.append("gru_no_recurrent_q")
+    if channels(case) != kw["units"]:
+      labs.append("gru_no_recurrent_q:dim!=units")
+  if lay == "QGRU" and kw.get("reset_after") and kw.get("use_bias", True):
+    labs.append("gru_reset_after_bias")
+  if (lay == "QLSTM" and not kw.get("use_bias", True) and
+      case["q"].get("bias") is not None):
+    labs.append("lstm_nobias_bias_q")
   return labs
 
 
@@ -458,10 +472,7 @@ def desc_strategy(tier="quick", layers=None):
       k = draw(st.integers(1, 3))
       s = draw(st.integers(1, 3))
       dl = draw(st.integers(1, 2)) if s == 1 else 1
-      # QSeparableConv1D + causal is a known crash here: keep it rare
-      pads = (["valid", "same", "causal"] if lay == "QConv1D" else
-              ["valid", "same", "valid", "same", "valid", "same", "causal"])
-      pad = draw(st.sampled_from(pads))
+      pad = draw(st.sampled_from(["valid", "same", "causal"]))
       cf = draw(st.integers(0, 4)) == 0 and pad != "causal"
       ext = (k - 1) * dl + 1
       length = ext + draw(st.integers(0, 4)) if pad == "valid" else draw(
@@ -528,11 +539,11 @@ def desc_strategy(tier="quick", layers=None):
       if lay != "QSimpleRNN":
         kw["implementation"] = draw(st.sampled_from([1, 2]))
       if lay == "QGRU":
-        # reset_after with a bias is a known crash here (array_ops.unstack):
-        # mostly drawn without bias, rarely with
         kw["reset_after"] = draw(st.booleans())
-        if kw["reset_after"] and kw["use_bias"] and not rare(draw, 7):
-          kw["use_bias"] = False
+      if lay == "QLSTM":
+        # only changes the bias initializer; weights are set explicitly, so
+        # this checks that the option is accepted and does not alter the maths
+        kw["unit_forget_bias"] = draw(st.booleans())
       t = draw(st.integers(1, 4))
       cin = draw(st.integers(1, cmax))
       case["in_shape"] = [b, t, cin]
@@ -568,18 +579,10 @@ def desc_strategy(tier="quick", layers=None):
         q[role] = None
       elif role == "bias":
         q[role] = qdraw(draw, BIAS_Q)
-        # QLSTM(use_bias=False, bias_quantizer=...) is a known crash: rare
-        if (lay == "QLSTM" and not kw["use_bias"] and q[role] is not None and
-            not rare(draw, 5)):
-          q[role] = None
       elif role == "state":
         q[role] = draw(st.sampled_from(STATE_Q)) if draw(st.booleans()) else None
       elif role == "average":
         q[role] = qdraw(draw, AVG_Q)
-      elif role == "recurrent" and lay == "QGRU":
-        # recurrent_quantizer=None is a known defect of QGRU: keep it rare
-        q[role] = None if rare(draw, 9) else draw(
-            st.sampled_from(KERNEL_Q[1:]))
       else:
         q[role] = qdraw(draw, KERNEL_Q)
     if fam == "rnn":
